@@ -32,7 +32,17 @@ Scope predicates (all decidable, all satisfied by the generated cases — see th
                     `World.table : World → Disambig.Table` and the lemma that the dict emitted for a conforming instance
                     of member `k` is a `Disambig.PayloadOf … k` (`payloadOf_unFields`) are in `Conv/Union.lean` and
                     `Lemmas/UnionPayload.lean`; `unionPick_member` applies `C12_complete`;
-* `conf w T x`, `x.valid`   x is a value of T (an existing Python object: dict keys duplicate-free).
+* `Ty.ntOK w`, `World.ntOK` / `World.ntOKOn S`   (data unstructured by a BaseConverter only) NamedTuples within
+                    BaseConverter's support: a BaseConverter has no NamedTuple unstructure hook -- an instance is left as
+                    the tuple it is, wherever it is met -- so NamedTuple classes must have fields of primitive types only
+                    (as for heterogeneous tuples and NewTypes), and class-typed positions (`.cls`, union members) name
+                    attrs classes / dataclasses, not NamedTuple classes (in Python a class is one or the other; the model's
+                    class table could say otherwise).  Class tables without NamedTuple classes satisfy both trivially
+                    (`World.noNT.ntOK`, `noNT_ntOK`).  Data unstructured by a `Converter` needs neither: `C01_roundtrip`
+                    covers NamedTuples with fields of any supported type (`Ty.supG` of `.nt c` is `true`; the fields are
+                    covered by `World.supG`), structured back by either converter class;
+* `conf w T x`, `x.valid`   x is a value of T (an existing Python object: dict keys duplicate-free); for `T = .nt c`:
+                    an instance of exactly that NamedTuple class whose items conform to the field types.
 
 `C01_roundtrip` (Converter-unstructured data) and `C01_roundtrip_interp` (BaseConverter-unstructured data) are the
 two halves of the statement; `C01_roundtrip_full` is their union over all four pairs of converter classes and
@@ -76,12 +86,13 @@ either a `BaseConverter` or a `Converter` with the same strategy (forbid_extra_k
 theorem C01_roundtrip_interp (w : World) (cu cs : Cfg) (t : Ty) (x : Obj)
     (hgen : cu.gen = false) (hstrat : cs.tupleStrat = cu.tupleStrat) (hforbid : cs.forbid = false)
     (hw : w.WF) (hwe : w.WFE) (hws : w.supB) (hs : t.supB = true)
+    (hwk : w.ntOK) (hk : t.ntOK w = true)
     (hwu : w.unionsOK cs.tupleStrat) (hu : t.unionsOK w cs.tupleStrat = true)
     (hc : conf w t x = true) (hv : x.valid = true) :
     convStructure w cs t (convUnstructure w cu t x) = some x := by
   unfold convStructure convUnstructure
   have key := roundtrip_interp w cu.core cs.core (by simpa [Cfg.core] using hgen) (by simpa [Cfg.core] using hstrat)
-    (by simpa [Cfg.core] using hforbid) hw hwe hws (by simpa [Cfg.core] using hwu) t x hs (by simpa [Cfg.core] using hu) hc hv
+    (by simpa [Cfg.core] using hforbid) hw hwe hws hwk (by simpa [Cfg.core] using hwu) t x hs hk (by simpa [Cfg.core] using hu) hc hv
   split
   · rw [modes_agree]; exact key
   · exact key
@@ -92,13 +103,14 @@ the table outside `S` (say, one with an `Annotated` field, which only a `Convert
 theorem C01_roundtrip_interp_on (w : World) (cu cs : Cfg) (t : Ty) (x : Obj) (S : Nat → Prop)
     (hgen : cu.gen = false) (hstrat : cs.tupleStrat = cu.tupleStrat) (hforbid : cs.forbid = false)
     (hw : w.WF) (hwe : w.WFE) (hws : w.supBOn S) (hs : t.supB = true) (hr : ∀ c ∈ t.refs, S c)
+    (hwk : w.ntOKOn S) (hk : t.ntOK w = true)
     (hwu : ∀ c, S c → ∀ f ∈ w.fields c, ∀ t, f.ty = some t → t.unionsOK w cs.tupleStrat = true)
     (hu : t.unionsOK w cs.tupleStrat = true)
     (hc : conf w t x = true) (hv : x.valid = true) :
     convStructure w cs t (convUnstructure w cu t x) = some x := by
   unfold convStructure convUnstructure
   have key := roundtrip_interp_on w cu.core cs.core (by simpa [Cfg.core] using hgen) (by simpa [Cfg.core] using hstrat)
-    (by simpa [Cfg.core] using hforbid) hw hwe S hws (by simpa [Cfg.core] using hwu) t x hs hr (by simpa [Cfg.core] using hu) hc hv
+    (by simpa [Cfg.core] using hforbid) hw hwe S hws hwk (by simpa [Cfg.core] using hwu) t x hs hk hr (by simpa [Cfg.core] using hu) hc hv
   split
   · rw [modes_agree]; exact key
   · exact key
@@ -108,12 +120,14 @@ strategy, any combination of validation modes, each unstructuring class within i
 theorem C01_roundtrip_full (w : World) (cu cs : Cfg) (t : Ty) (x : Obj)
     (hstrat : cs.tupleStrat = cu.tupleStrat) (hforbid : cs.forbid = false)
     (hw : w.WF) (hwe : w.WFE) (hws : w.supPair cu cs) (hs : t.supPair cu cs = true)
+    (hwk : cu.gen = false → w.ntOK) (hk : cu.gen = false → t.ntOK w = true)
     (hwu : w.unionsOK cs.tupleStrat) (hu : t.unionsOK w cs.tupleStrat = true)
     (hc : conf w t x = true) (hv : x.valid = true) :
     convStructure w cs t (convUnstructure w cu t x) = some x := by
   unfold convStructure convUnstructure
   have key := roundtrip_full w cu.core cs.core (by simpa [Cfg.core] using hstrat)
-    (by simpa [Cfg.core] using hforbid) hw hwe hws (by simpa [Cfg.core] using hwu) t x hs (by simpa [Cfg.core] using hu) hc hv
+    (by simpa [Cfg.core] using hforbid) hw hwe hws (by simpa [Cfg.core] using hwk) (by simpa [Cfg.core] using hwu) t x hs
+    (by simpa [Cfg.core] using hk) (by simpa [Cfg.core] using hu) hc hv
   split
   · rw [modes_agree]; exact key
   · exact key
@@ -123,12 +137,13 @@ class is structured back by either class. -/
 theorem C01_roundtrip_cross (w : World) (cu cs : Cfg) (t : Ty) (x : Obj)
     (hstrat : cs.tupleStrat = cu.tupleStrat) (hforbid : cs.forbid = false)
     (hw : w.WF) (hwe : w.WFE) (hws : w.supB) (hs : t.supB = true)
+    (hwk : w.ntOK) (hk : t.ntOK w = true)
     (hwu : w.unionsOK cs.tupleStrat) (hu : t.unionsOK w cs.tupleStrat = true)
     (hc : conf w t x = true) (hv : x.valid = true) :
     convStructure w cs t (convUnstructure w cu t x) = some x := by
   unfold convStructure convUnstructure
   have key := roundtrip_cross w cu.core cs.core (by simpa [Cfg.core] using hstrat)
-    (by simpa [Cfg.core] using hforbid) hw hwe hws (by simpa [Cfg.core] using hwu) t x hs (by simpa [Cfg.core] using hu) hc hv
+    (by simpa [Cfg.core] using hforbid) hw hwe hws hwk (by simpa [Cfg.core] using hwu) t x hs hk (by simpa [Cfg.core] using hu) hc hv
   split
   · rw [modes_agree]; exact key
   · exact key
@@ -233,6 +248,13 @@ theorem rtWorldB_noUnion : rtWorldB.noUnion := by
     rcases hf with rfl | rfl | rfl <;> (simp at ht; subst ht; simp [Ty.noUnion, Ty.noUnionL])
   | n + 2 => simp [rtWorldB, World.fields] at hf
 
+theorem rtWorldB_noNT : rtWorldB.noNT := by
+  intro c
+  match c with
+  | 0 => rfl
+  | 1 => rfl
+  | n + 2 => simp [World.isNT, rtWorldB]
+
 theorem rtValueB_conf : conf rtWorldB (.cls 1) rtValueB = true := by
   simp [rtValueB, rtWorldB, conf, confL, confF, confT, confKV, World.fields, World.members, World.frozen, keysOf,
     Obj.pyEq, Obj.num2?, SK.structTo, CK.isSet, nodupPy, Obj.memPy, hashableL, hashable, Dflt.value?]
@@ -244,14 +266,15 @@ theorem rtValueB_valid : rtValueB.valid = true := by
 example : convStructure rtWorldB ⟨true, false, true, false⟩ (.cls 1)
     (convUnstructure rtWorldB ⟨false, false, false, false⟩ (.cls 1) rtValueB) = some rtValueB :=
   C01_roundtrip_interp rtWorldB ⟨false, false, false, false⟩ ⟨true, false, true, false⟩ (.cls 1) rtValueB
-    rfl rfl rfl rtWorldB_WF rtWorldB_WFE rtWorldB_supB (by simp [Ty.supB]) (rtWorldB_noUnion.unionsOK _)
-    (by simp [Ty.unionsOK]) rtValueB_conf rtValueB_valid
+    rfl rfl rfl rtWorldB_WF rtWorldB_WFE rtWorldB_supB (by simp [Ty.supB]) rtWorldB_noNT.ntOK (noNT_ntOK rtWorldB_noNT _)
+    (rtWorldB_noUnion.unionsOK _) (by simp [Ty.unionsOK]) rtValueB_conf rtValueB_valid
 
 /-- BaseConverter (tuple strategy) -> BaseConverter (tuple strategy, detailed validation), through the full statement -/
 example : convStructure rtWorldB ⟨false, true, true, false⟩ (.cls 1)
     (convUnstructure rtWorldB ⟨false, true, false, false⟩ (.cls 1) rtValueB) = some rtValueB :=
   C01_roundtrip_full rtWorldB ⟨false, true, false, false⟩ ⟨false, true, true, false⟩ (.cls 1) rtValueB
     rfl rfl rtWorldB_WF rtWorldB_WFE (by simpa [World.supPair] using rtWorldB_supB) (by simp [Ty.supPair, Ty.supB])
+    (fun _ => rtWorldB_noNT.ntOK) (fun _ => noNT_ntOK rtWorldB_noNT _)
     (rtWorldB_noUnion.unionsOK _) (by simp [Ty.unionsOK]) rtValueB_conf rtValueB_valid
 
 /-! Non-vacuity of the `_on` form: the same table plus a class with an `Annotated` field (Converter-only, so
@@ -313,6 +336,20 @@ example : convStructure rtWorldB' ⟨false, false, true, false⟩ (.cls 1)
     rfl rfl rfl rtWorldB'_WF
     ⟨fun e v hv => rtWorldB_WFE.enumLeaf e v hv, fun e => rtWorldB_WFE.enumDistinct e⟩
     rtWorldB'_supBOn (by simp [Ty.supB]) (by simp [Ty.refs])
+    (World.noNT.ntOKOn (w := rtWorldB') (by
+      intro c
+      match c with
+      | 0 => rfl
+      | 1 => rfl
+      | 2 => rfl
+      | n + 3 => simp [World.isNT, rtWorldB', rtWorldB]) _)
+    (noNT_ntOK (w := rtWorldB') (by
+      intro c
+      match c with
+      | 0 => rfl
+      | 1 => rfl
+      | 2 => rfl
+      | n + 3 => simp [World.isNT, rtWorldB', rtWorldB]) _)
     (by
       intro c hc f hf t ht
       have hc2 : c < 2 := hc
@@ -396,6 +433,14 @@ theorem rtWorldU_unionsOK : rtWorldU.unionsOK false := by
     rcases hf with rfl | rfl <;> (simp at ht; subst ht; simp [Ty.unionsOK, rtWorldU_unionOK])
   | n + 3 => simp [rtWorldU, World.fields] at hf
 
+theorem rtWorldU_noNT : rtWorldU.noNT := by
+  intro c
+  match c with
+  | 0 => rfl
+  | 1 => rfl
+  | 2 => rfl
+  | n + 3 => simp [World.isNT, rtWorldU]
+
 theorem rtValueU_conf : conf rtWorldU (.cls 2) rtValueU = true := by
   simp [rtValueU, rtWorldU, conf, confL, confF, World.fields, SK.structTo, CK.isSet, Dflt.value?]
 
@@ -423,9 +468,177 @@ example : convStructure rtWorldU ⟨true, false, false, false⟩ (.union [0, 1] 
       | 1 => simp [rtWorldU, World.fields] at hf; rcases hf with rfl | rfl <;> simp [Ty.supB]
       | 2 => simp [rtWorldU, World.fields] at hf; rcases hf with rfl | rfl <;> simp [Ty.supB, SK.structTo, CK.isSet]
       | n + 3 => simp [rtWorldU, World.fields] at hf)
-    (by simp [Ty.supPair, Ty.supB]) rtWorldU_unionsOK (by simp [Ty.unionsOK, rtWorldU_unionOK])
+    (by simp [Ty.supPair, Ty.supB]) (fun _ => rtWorldU_noNT.ntOK) (fun _ => noNT_ntOK rtWorldU_noNT _)
+    rtWorldU_unionsOK (by simp [Ty.unionsOK, rtWorldU_unionOK])
     (by simp [rtWorldU, conf, confF, World.fields, Dflt.value?])
     (by simp [Obj.valid, Obj.validF])
+/-! Non-vacuity for NamedTuples.  `rtWorldN`: class 0 (attrs, `a: int`), class 1 = `class P(NamedTuple): k: K0; e: E0 = E0.M0`
+(fields that need conversion: the `Converter` builds a tuple `({'a': 3}, 1)`), class 2 holds a `list[P]`.
+Data unstructured by a `Converter` is structured back by a `BaseConverter` in detailed mode. -/
+def rtWorldN : World :=
+  { classes :=
+      [ { kind := .attrs, frozen := false, fields :=
+            [ { name := "a", alias := "a", ty := some .int, dflt := .none, init := true, required := true } ] },
+        { kind := .namedtuple, frozen := true, fields :=
+            [ { name := "k", alias := "k", ty := some (.cls 0), dflt := .none, init := true, required := true },
+              { name := "e", alias := "e", ty := some (.enum 0), dflt := .const (.enumM 0 0), init := true, required := true } ] },
+        { kind := .dataclass, frozen := false, fields :=
+            [ { name := "ps", alias := "ps", ty := some (.coll .list (.nt 1)), dflt := .none, init := true, required := true } ] } ],
+    enums := [[.int 1, .str "x"]] }
+
+def rtValueN : Obj :=
+  .inst 2 [("ps", .coll .list [.inst 1 [("k", .inst 0 [("a", .int 3)]), ("e", .enumM 0 1)]])]
+
+theorem rtWorldN_WF : rtWorldN.WF := by
+  constructor
+  · intro c f hf d hd
+    match c with
+    | 0 => simp [rtWorldN, World.fields] at hf; subst hf; simp [Dflt.value?] at hd
+    | 1 =>
+      simp [rtWorldN, World.fields] at hf
+      rcases hf with rfl | rfl
+      · simp [Dflt.value?] at hd
+      · simp [Dflt.value?] at hd; subst hd; simp [fconf, conf, rtWorldN, World.members]
+    | 2 => simp [rtWorldN, World.fields] at hf; subst hf; simp [Dflt.value?] at hd
+    | n + 3 => simp [rtWorldN, World.fields] at hf
+  · intro c
+    match c with
+    | 0 => simp [rtWorldN, World.fields]
+    | 1 => simp [rtWorldN, World.fields]
+    | 2 => simp [rtWorldN, World.fields]
+    | n + 3 => simp [rtWorldN, World.fields]
+
+theorem rtWorldN_WFE : rtWorldN.WFE := by
+  constructor
+  · intro e v hv
+    match e with
+    | 0 =>
+      simp [rtWorldN, World.members] at hv
+      rcases hv with rfl | rfl <;> simp [Obj.isLeaf]
+    | n + 1 => simp [rtWorldN, World.members] at hv
+  · intro e
+    match e with
+    | 0 => simp [rtWorldN, World.members, nodupPy, Obj.memPy, Obj.pyEq, Obj.num2?]
+    | n + 1 => simp [rtWorldN, World.members, nodupPy]
+
+theorem rtWorldN_supG : rtWorldN.supG false := by
+  intro c f hf
+  match c with
+  | 0 => simp [rtWorldN, World.fields] at hf; subst hf; simp [Ty.supG]
+  | 1 => simp [rtWorldN, World.fields] at hf; rcases hf with rfl | rfl <;> simp [Ty.supG]
+  | 2 => simp [rtWorldN, World.fields] at hf; subst hf; simp [Ty.supG, SK.structTo, CK.isSet]
+  | n + 3 => simp [rtWorldN, World.fields] at hf
+
+theorem rtWorldN_noUnion : rtWorldN.noUnion := by
+  intro c f hf t ht
+  match c with
+  | 0 => simp [rtWorldN, World.fields] at hf; subst hf; simp at ht; subst ht; simp [Ty.noUnion]
+  | 1 => simp [rtWorldN, World.fields] at hf; rcases hf with rfl | rfl <;> (simp at ht; subst ht; simp [Ty.noUnion])
+  | 2 => simp [rtWorldN, World.fields] at hf; subst hf; simp at ht; subst ht; simp [Ty.noUnion]
+  | n + 3 => simp [rtWorldN, World.fields] at hf
+
+theorem rtValueN_conf : conf rtWorldN (.cls 2) rtValueN = true := by
+  simp [rtValueN, rtWorldN, conf, confL, confF, confT, World.fields, World.members, World.isNT, World.ntTys, World.ntNames,
+    Field.tyA, vals, SK.structTo, CK.isSet, Dflt.value?]
+
+theorem rtValueN_valid : rtValueN.valid = true := by
+  simp [rtValueN, Obj.valid, Obj.validL, Obj.validF]
+
+/-- what the `Converter` emits for the NamedTuple instance: the tuple of its unstructured items -/
+example : convUnstructure rtWorldN ⟨true, false, false, false⟩ (.nt 1)
+    (.inst 1 [("k", .inst 0 [("a", .int 3)]), ("e", .enumM 0 1)])
+    = .coll .tuple [.dict [(.str "a", .int 3)], .str "x"] := by
+  simp [convUnstructure, Cfg.core, un, unT, unFields, emits, rtWorldN, World.fields, World.ntTys, Field.tyA, vals,
+    Field.key, enumValue, World.members]
+
+/-- Converter (dict strategy, fast) -> BaseConverter (dict strategy, detailed validation), through a NamedTuple -/
+example : convStructure rtWorldN ⟨false, false, true, false⟩ (.cls 2)
+    (convUnstructure rtWorldN ⟨true, false, false, false⟩ (.cls 2) rtValueN) = some rtValueN :=
+  C01_roundtrip rtWorldN ⟨true, false, false, false⟩ ⟨false, false, true, false⟩ (.cls 2) rtValueN
+    rfl rfl rfl rtWorldN_WF rtWorldN_WFE rtWorldN_supG (by simp [Ty.supG]) (rtWorldN_noUnion.unionsOK _)
+    (by simp [Ty.unionsOK]) rtValueN_conf rtValueN_valid
+
+/-! The same for data unstructured by a `BaseConverter` (which leaves a NamedTuple as the tuple it is): class 0 =
+`class Q(NamedTuple): x: int; y: str = "d"` (primitive fields, `World.ntOK`), class 1 holds a `Q` and a `list[Q]`. -/
+def rtWorldNB : World :=
+  { classes :=
+      [ { kind := .namedtuple, frozen := true, fields :=
+            [ { name := "x", alias := "x", ty := some .int, dflt := .none, init := true, required := true },
+              { name := "y", alias := "y", ty := some .str, dflt := .const (.str "d"), init := true, required := true } ] },
+        { kind := .dataclass, frozen := false, fields :=
+            [ { name := "p", alias := "p", ty := some (.nt 0), dflt := .none, init := true, required := true },
+              { name := "ps", alias := "ps", ty := some (.coll .list (.nt 0)), dflt := .none, init := true, required := true } ] } ],
+    enums := [] }
+
+def rtValueNB : Obj :=
+  .inst 1 [("p", .inst 0 [("x", .int 1), ("y", .str "q")]),
+           ("ps", .coll .list [.inst 0 [("x", .int 2), ("y", .str "d")]])]
+
+theorem rtWorldNB_WF : rtWorldNB.WF := by
+  constructor
+  · intro c f hf d hd
+    match c with
+    | 0 =>
+      simp [rtWorldNB, World.fields] at hf
+      rcases hf with rfl | rfl
+      · simp [Dflt.value?] at hd
+      · simp [Dflt.value?] at hd; subst hd; simp [fconf, conf]
+    | 1 =>
+      simp [rtWorldNB, World.fields] at hf
+      rcases hf with rfl | rfl <;> simp [Dflt.value?] at hd
+    | n + 2 => simp [rtWorldNB, World.fields] at hf
+  · intro c
+    match c with
+    | 0 => simp [rtWorldNB, World.fields]
+    | 1 => simp [rtWorldNB, World.fields]
+    | n + 2 => simp [rtWorldNB, World.fields]
+
+theorem rtWorldNB_WFE : rtWorldNB.WFE := by
+  constructor
+  · intro e v hv; simp [rtWorldNB, World.members] at hv
+  · intro e; simp [rtWorldNB, World.members, nodupPy]
+
+theorem rtWorldNB_supB : rtWorldNB.supB := by
+  intro c f hf
+  match c with
+  | 0 => simp [rtWorldNB, World.fields] at hf; rcases hf with rfl | rfl <;> simp [Ty.supB]
+  | 1 => simp [rtWorldNB, World.fields] at hf; rcases hf with rfl | rfl <;> simp [Ty.supB, SK.structTo, CK.isSet]
+  | n + 2 => simp [rtWorldNB, World.fields] at hf
+
+theorem rtWorldNB_ntOK : rtWorldNB.ntOK := by
+  constructor
+  · intro c _ f hf t ht
+    match c with
+    | 0 => simp [rtWorldNB, World.fields] at hf; rcases hf with rfl | rfl <;> (simp at ht; subst ht; simp [Ty.ntOK])
+    | 1 => simp [rtWorldNB, World.fields] at hf; rcases hf with rfl | rfl <;> (simp at ht; subst ht; simp [Ty.ntOK])
+    | n + 2 => simp [rtWorldNB, World.fields] at hf
+  · intro c _ hnt f hf
+    match c with
+    | 0 => simp [rtWorldNB, World.fields] at hf; rcases hf with rfl | rfl <;> simp [Ty.isPrimLeaf]
+    | 1 => simp [rtWorldNB, World.isNT] at hnt
+    | n + 2 => simp [rtWorldNB, World.fields] at hf
+
+theorem rtWorldNB_noUnion : rtWorldNB.noUnion := by
+  intro c f hf t ht
+  match c with
+  | 0 => simp [rtWorldNB, World.fields] at hf; rcases hf with rfl | rfl <;> (simp at ht; subst ht; simp [Ty.noUnion])
+  | 1 => simp [rtWorldNB, World.fields] at hf; rcases hf with rfl | rfl <;> (simp at ht; subst ht; simp [Ty.noUnion])
+  | n + 2 => simp [rtWorldNB, World.fields] at hf
+
+theorem rtValueNB_conf : conf rtWorldNB (.cls 1) rtValueNB = true := by
+  simp [rtValueNB, rtWorldNB, conf, confL, confF, confT, World.fields, World.isNT, World.ntTys, World.ntNames,
+    Field.tyA, vals, SK.structTo, CK.isSet, Dflt.value?]
+
+theorem rtValueNB_valid : rtValueNB.valid = true := by
+  simp [rtValueNB, Obj.valid, Obj.validL, Obj.validF]
+
+/-- BaseConverter (tuple strategy, fast) -> Converter (tuple strategy, detailed validation), through NamedTuples -/
+example : convStructure rtWorldNB ⟨true, true, true, false⟩ (.cls 1)
+    (convUnstructure rtWorldNB ⟨false, true, false, false⟩ (.cls 1) rtValueNB) = some rtValueNB :=
+  C01_roundtrip_interp rtWorldNB ⟨false, true, false, false⟩ ⟨true, true, true, false⟩ (.cls 1) rtValueNB
+    rfl rfl rfl rtWorldNB_WF rtWorldNB_WFE rtWorldNB_supB (by simp [Ty.supB]) rtWorldNB_ntOK (by simp [Ty.ntOK, rtWorldNB, World.isNT])
+    (rtWorldNB_noUnion.unionsOK _) (by simp [Ty.unionsOK]) rtValueNB_conf rtValueNB_valid
 end Examples
+
 
 end CattrsModel
